@@ -3,6 +3,7 @@ import ast
 
 from ..astutil import norm, const, NO, compare, tail, names
 from ..index import AnalysisError, walk_own
+from ..absint import Explorer, Inst
 from .common import (site, key, calls_to, method_calls, nodes_with, guard_check, stores_to_name, rname)
 
 BODY = "gunicorn.http.body"
@@ -237,18 +238,13 @@ def r3(ctx):
     ctx.check("C07.R3", bool(pt), key(f, "trailers-after-last-chunk"), site(f), "the zero-size chunk is not followed by trailer parsing: the trailer section / final CRLF would be read as the next request",
               "parse_trailers after the zero chunk")
     if pt:
-        def z(e):
-            c = compare(e)
-            if c and const(c[2], NO) == 0 and c[1] in (ast.Eq, ast.NotEq) and isinstance(c[0], ast.Name):
-                return -1 if c[1] is ast.Eq else +1
-            return None
-        p, hits = guard_check(f, pt, z)
-        ctx.check("C07.R3", p is None, key(f, "trailers-only-at-zero"), site(f), "trailers are parsed for a non-zero chunk", "only when chunk_size == 0", path=p and g.fmt_path(p))
-        # every path through the zero test's true edge passes parse_trailers
-        for t, pol in hits:
-            lab = "true" if pol < 0 else "false"
-            r = g.reachable([(t, lab)], without_nodes=pt, follow_exc=False)
-            ctx.check("C07.R3", g.exit not in r, key(f, "zero-must-parse-trailers"), site(f, t), "the zero chunk can end the body without consuming the trailer section", "zero chunk always parses trailers")
+        # evaluated from the entry on chunk-size lines: the trailer section is parsed exactly after a zero-size chunk
+        DATA = "data" if "data" in f.params else f.params[-1]
+        for line, zero in ((b"0", True), (b"000", True), (b"0;x=1", True), (b"1", False), (b"1a", False), (b"ff;x", False), (b"10", False)):
+            outs = Explorer(f).run(g.entry, {DATA: line + b"\r\nREST"}, watch={n.id: "trailers" for n in pt})
+            got = set("trailers" in o.events for o in outs if o.kind != "raise")
+            ctx.check("C07.R3", got == {zero}, key(f, "trailers-only-at-zero|%s" % line.decode()), site(f, text="chunk-size line %r" % line),
+                      ("the zero-size chunk %r is not followed by trailer parsing" if zero else "trailers are parsed for a non-zero chunk (%r)") % line, "trailers parsed: %s" % zero)
     f = ctx.fn(repo.func(BODY + ".ChunkedReader.parse_chunked"))
     loops = [w for w in walk_own(f.node) if isinstance(w, ast.While) and compare(w.test) and const(compare(w.test)[2], NO) == 0 and compare(w.test)[1] is ast.Gt]
     ctx.check("C07.R3", bool(loops), key(f, "ends-at-zero"), site(f), "the chunk loop does not end at the zero-size chunk", "while size > 0")
